@@ -5,7 +5,7 @@
    successors, total = holding + stockout + in-transit - revenue; return value = sum over nodes and periods).
    The identity model = spec is definitional; what ties it to stockpyl is the correspondence on HC/SC/ITHC/REV/TC and the
    return value on every generated case, plus an oracle recomputing the costs from the implementation's own state
-   variables (incl. multi-product networks with shared raw materials, which the model does not cover).
+   variables (incl. multi-product networks with shared raw materials: Stage-2 model, C05_multi_* theorems below).
    Cost FUNCTIONS (Python callables) are outside the model. *)
 From SV Require Import Sim.Model Sim.Inv_base Sim.Policy_thms Sim.Example.
 From SV Require Import Sim2.State2 Sim2.Model2 Sim2.Inv2a_tac Sim2.Inv2a_run Sim2.Wfb2 Sim2.Inv2b_tac Sim2.Inv2b_init Sim2.Main2b Sim2.Inv2c_cost Sim2.Main2c.
